@@ -1,6 +1,7 @@
 package harness
 
 import (
+	"testing/iotest"
 	"crypto/tls"
 	"encoding/base64"
 	"errors"
@@ -97,6 +98,8 @@ type cliCall struct {
 	auth  *saslScript
 	ann   []*Sx
 }
+
+var sendmailCounter int
 
 type cliCase struct {
 	lmtp      bool
@@ -334,7 +337,17 @@ func runCli(cs cliCase) *Sx {
 				ok, v := c.Extension(call.s)
 				extra = append(extra, L(A("xt"), B(ok), XS(v)))
 			case "sendmail":
-				err = c.SendMail(call.s, call.tos, bytes.NewReader(call.body))
+				// the body comes from readers of different habits (none of them changes what is sent):
+				// all at once (a WriterTo), the last octets together with io.EOF, one octet per Read
+				sendmailCounter++
+				var rd io.Reader = bytes.NewReader(call.body)
+				switch sendmailCounter % 3 {
+				case 1:
+					rd = iotest.DataErrReader(struct{ io.Reader }{bytes.NewReader(call.body)})
+				case 2:
+					rd = iotest.OneByteReader(struct{ io.Reader }{bytes.NewReader(call.body)})
+				}
+				err = c.SendMail(call.s, call.tos, rd)
 				w = nil // the model's "most recent data writer" is now SendMail's own
 			}
 		}()
@@ -1390,6 +1403,23 @@ func genCliAuthThenReEhlo(rng *rand.Rand, thorough bool, emit func(*Sx)) {
 	}
 }
 
+// genCliMailRefused: MAIL with parameters is refused (555 and other codes): the call returns that error and has
+// written exactly one line - no second attempt without the parameters
+func genCliMailRefused(rng *rand.Rand, thorough bool, emit func(*Sx)) {
+	ehlo := "250-srv\r\n250-8BITMIME\r\n250-SMTPUTF8\r\n250-DSN\r\n250-REQUIRETLS\r\n250 SIZE 1000\r\n"
+	for _, code := range []string{"555 5.5.4 parameters not recognized", "550 5.1.0 no", "452 4.3.1 later", "501 5.5.4 syntax"} {
+		for mi, mo := range []*smtp.MailOptions{{UTF8: true}, {Size: 10, EnvelopeID: "e", Return: smtp.DSNReturnFull}, {RequireTLS: true, UTF8: true}, nil} {
+			stream := "220 ready\r\n" + ehlo + code + "\r\n250 2.1.0 a second answer, for a second MAIL only\r\n250 2.0.0 ok\r\n221 bye\r\n"
+			calls := []cliCall{{kind: "hello", s: "me.example"}, {kind: "mail", s: "s@example.org", mopts: mo}, {kind: "noop"}, {kind: "quit"}}
+			cs := cliCase{stream: []byte(stream), focus: "mail-refused", calls: calls}
+			if mi%2 == 0 {
+				cs.cuts = randCuts(rng, cs.stream)
+			}
+			emit(runCli(cs))
+		}
+	}
+}
+
 func GenCli(rng *rand.Rand, thorough bool, emit func(*Sx)) {
 	genCliC15(rng, thorough, emit)
 	genCliBody(rng, thorough, emit)
@@ -1404,4 +1434,5 @@ func GenCli(rng *rand.Rand, thorough bool, emit func(*Sx)) {
 	genCliRandom(rng, thorough, emit)
 	genCliOrcptSpace(rng, thorough, emit)
 	genCliAuthThenReEhlo(rng, thorough, emit)
+	genCliMailRefused(rng, thorough, emit)
 }
